@@ -1,7 +1,10 @@
 package storagesc
 
 import (
+	"fmt"
 	"strconv"
+
+	"0chain.net/smartcontract/stakepool/spenum"
 
 	cstate "0chain.net/chaincore/chain/state"
 	"0chain.net/smartcontract/dbs/event"
@@ -25,6 +28,9 @@ func (ssc *StorageSmartContract) collectReward(
 			crr stakepool.CollectRewardRequest, balances cstate.StateContextI,
 		) (currency.Coin, error) {
 			req = crr
+			if crr.ProviderType != spenum.Blobber && crr.ProviderType != spenum.Validator {
+				return 0, fmt.Errorf("unsupported provider type %s", crr.ProviderType)
+			}
 			sp, err := ssc.getStakePool(crr.ProviderType, crr.ProviderId, balances)
 			if err != nil {
 				return 0, err
